@@ -517,3 +517,20 @@ Theorem C13_b64_sz_hypotheses_satisfiable :
    0 < mid rnd64 0 4 < 4 /\ nz rnd64 0 4 /\ rnd64 0 = 0 /\ rnd64 4 = 4).
 Proof. exact (conj sz_in_ex sz_ok_ex). Qed.
 Print Assumptions C13_b64_sz_hypotheses_satisfiable.
+
+(* ------------------------------------------------------------------------------------------------------------------
+   OPEN FINDING (KNOWN_FINDINGS.txt, keys a_mf_<name>/span-overflow): for finite arguments and well-ordered finite parameters
+   whose span b - a exceeds the largest binary64 number, the piecewise-linear families return NaN or lose the value in the
+   binary64 run of the model (and in the C: checks/C13.py replays these inputs).  The [0,1] theorems above are about the
+   rounded reals, where overflow does not exist. *)
+From Coq Require Floats.
+From LibaV Require Import Common.FloatOps C13.MfOverflow.
+Theorem C13_f64_span_overflow_refuted :
+  (fin px && fin pa && fin pb && fin pc && fin pd && PrimFloat.ltb pa px && PrimFloat.ltb px pb && PrimFloat.ltb pb pc
+   && PrimFloat.ltb pc pd = true) /\
+  PrimFloat.is_nan (mf_tri F64_ops px pa pb pc) = true /\
+  PrimFloat.is_nan (mf_trap F64_ops px pa pb pc pd) = true /\
+  PrimFloat.is_nan (mf_lins F64_ops px pa pb) = true /\
+  PrimFloat.eqb (mf_linz F64_ops px pa pb) PrimFloat.zero = true.
+Proof. exact f64_mf_span_overflow. Qed.
+Print Assumptions C13_f64_span_overflow_refuted.
